@@ -76,6 +76,8 @@ class Ctx:
 
     def reviewed_or_violation(self, rule, key, desc, loc=None, detail=None):
         full = "%s|%s" % (rule, key)
+        if any(i.rule == rule and i.key == key for i in self.instances):
+            return
         r = self.reviewed.get(full)
         if r is not None:
             self.instances.append(Instance(rule, key, desc + "  [reviewed: %s]" % r["reason"], "reviewed", loc, detail))
